@@ -377,14 +377,31 @@ func init() {
 						return
 					}
 					for _, cmd := range []string{"snps", "variants", "samvariants"} {
-						call := build(cmd, idx, k)
-						call.Aggregate, call.Threshold = true, 0.5
-						ob, _ := call.CLI(nil, 0)
-						oc := call.Canon()
-						res.Evals++
-						res.Validated++
-						if ob.String() != oc.String() {
-							res.Violate("aggregate:binary-differs", "real binary and instrumented build disagree: "+firstDiff(ob.Out, oc.Out), c13Case{call, 0.5})
+						base := build(cmd, idx, k)
+						_, counts, nseq := c13PerSeq(base)
+						ths := []float64{0.5, 0, 1}
+						if counts != nil && (k/7)%2 == 0 {
+							// every occurring frequency, passed through the flag parser as text
+							for _, n := range counts {
+								ths = append(ths, float64(n)/float64(nseq))
+							}
+							ths = append(ths, 0.2, 0.6)
+						}
+						seen := map[float64]bool{}
+						for _, th := range ths {
+							if seen[th] {
+								continue
+							}
+							seen[th] = true
+							call := base
+							call.Aggregate, call.Threshold = true, th
+							ob, _ := call.CLI(nil, 0)
+							oc := call.Canon()
+							res.Evals++
+							res.Validated++
+							if ob.String() != oc.String() {
+								res.Violate("aggregate:binary-differs", fmt.Sprintf("--threshold %v: real binary and instrumented build disagree: %s", th, firstDiff(ob.Out, oc.Out)), c13Case{call, th})
+							}
 						}
 					}
 				})
